@@ -196,27 +196,28 @@ def main():
     chk.harness_errors += errs
     chk.counters["monitor_canaries_noticed"] = sum(1 for v in seen.values()
                                                    if v)
-    # the histories of the listed known findings of this property are
-    # replayed in every run: a finding that is still there is reported as
-    # KNOWN-FINDING, one that has been repaired simply no longer shows
-    for key, (kprop, ktext) in sorted(R.load_known().items()):
-        m = re.search(r"witness (findings/\S+\.script)", ktext)
-        if kprop != PROP or m is None:
+    # the witness histories of every recorded finding of this property
+    # (findings/C03-*.script: repaired ones and listed known ones) are
+    # replayed in every run.  A repaired defect that returns is a violation
+    # again; a listed known finding that is still there is reported as
+    # KNOWN-FINDING; histories that need the fault-injection build are left
+    # to C12 / C11
+    import glob
+    for wpath in sorted(glob.glob(os.path.join(R.VERIF, "findings",
+                                               PROP + "-*.script"))):
+        raw = open(wpath).read()
+        if "fault arm" in raw or "iofault" in raw or "!faultretry" in raw:
             continue
-        wpath = os.path.join(R.VERIF, m.group(1).rstrip(");,"))
-        if not os.path.exists(wpath):
-            chk.harness_errors.append("known finding %s: witness %s missing"
-                                      % (key, wpath))
-            continue
-        text = "\n".join(l for l in open(wpath).read().split("\n")
+        text = "\n".join(l for l in raw.split("\n")
                          if not l.startswith("#")) + "\n"
-        res = R.run_cases(binary, [("known", text)],
-                          os.path.join(chk.workroot, "known"))["known"]
+        res = R.run_cases(binary, [("finding", text)],
+                          os.path.join(chk.workroot, "finding"))["finding"]
         v, inc = R.standard_violations(res, text, PROP)
         for x in v:
-            chk.violation(x["key"], x["desc"], x.get("script"))
-        chk.counters["known_finding_histories_replayed"] = chk.counters.get(
-            "known_finding_histories_replayed", 0) + 1
+            chk.violation(x["key"], "%s: %s" % (os.path.basename(wpath),
+                                                x["desc"]), x.get("script"))
+        chk.counters["finding_histories_replayed"] = chk.counters.get(
+            "finding_histories_replayed", 0) + 1
     nio = 18 if chk.tier == "quick" else 90
     payloads = [(chk.seed, per, nops, binary, chk.workroot, membin, memper,
                  clang_bin, fibin, nio) for i in range(nchunks)]
